@@ -249,5 +249,114 @@ theorem readKeys_eq (gap back : Bytes) (l : List EntryBound) (h : ∀ bd ∈ l, 
     simp only [readKeys, readKey_eq gap back bd (h bd (by simp)),
       ih (fun x hx => h x (by simp [hx])), List.map_cons]
 
+/-! ### The abstraction relation and the layout invariant -/
+
+/-- **Abstraction relation**: the byte-level buffer and the numeric one carry the same numbers,
+    and the allocation of the numeric one is live and as long as the byte string. -/
+structure Abs (b : EntriesB) (e : Entries) : Prop where
+  elen : b.entriesLen = e.entriesLen
+  cnt  : b.boundsCount = e.boundsCount
+  len  : e.bufLen = b.buf.length
+  live : e.live = true
+
+/-- **Layout**: the allocation is the bound records, a gap, and the entry bytes; every bound lies
+    within the entry bytes. -/
+structure Lay (b : EntriesB) (items : List Entry) (bounds : List EntryBound) (gap : Bytes) :
+    Prop where
+  buf  : b.buf = encodeBounds bounds ++ (gap ++ backBytes items)
+  cnt  : b.boundsCount = bounds.length
+  elen : b.entriesLen = itemsSize items
+  rng  : ∀ bd ∈ bounds, InRange (backBytes items) bd
+
+theorem Lay.length {b : EntriesB} {items : List Entry} {bounds : List EntryBound} {gap : Bytes}
+    (h : Lay b items bounds gap) :
+    b.buf.length = 16 * b.boundsCount + gap.length + b.entriesLen := by
+  rw [h.buf, h.cnt, h.elen]; simp; omega
+
+/-- The two regions do not overlap. -/
+theorem Lay.disjoint {b : EntriesB} {items : List Entry} {bounds : List EntryBound} {gap : Bytes}
+    (h : Lay b items bounds gap) : 16 * b.boundsCount + b.entriesLen ≤ b.buf.length := by
+  have := h.length; omega
+
+/-- The bound `insert` writes for `(k, v)` after `items`. -/
+def newBound (items : List Entry) (k v : Bytes) : EntryBound :=
+  ⟨itemsSize items + k.length + v.length, k.length, v.length⟩
+
+/-- **`store`**: with room for 16 + |k| + |v| bytes in the gap, the three writes are in range and
+    produce `bounds ++ [new bound]`, a smaller gap, and `k ++ v` in front of the entry bytes. -/
+theorem store_lay {b : EntriesB} {items : List Entry} {bounds : List EntryBound} {gap : Bytes}
+    (h : Lay b items bounds gap) (k v : Bytes) (hroom : 16 + k.length + v.length ≤ gap.length)
+    (hk : k.length < 2 ^ 32) (hv : v.length < 2 ^ 32) (hsmall : b.buf.length < 2 ^ 64) :
+    ∃ b' gap', store b k v = .ok b' ∧
+      Lay b' (items ++ [(k, v)]) (bounds ++ [newBound items k v]) gap' ∧
+      b'.buf.length = b.buf.length ∧ b'.entriesLen = b.entriesLen + k.length + v.length ∧
+      b'.boundsCount = b.boundsCount + 1 := by
+  have hlen := h.length
+  obtain ⟨g1, r1, hg1, hl1⟩ := split_at_len gap 16 (by omega)
+  have hr1 : r1.length = gap.length - 16 := by
+    have : gap.length = g1.length + r1.length := by rw [hg1]; simp
+    omega
+  obtain ⟨r2, g4, hg4, hl4⟩ := split_at_len_back r1 v.length (by omega)
+  have hr2 : r2.length = gap.length - 16 - v.length := by
+    have : r1.length = r2.length + g4.length := by rw [hg4]; simp
+    omega
+  obtain ⟨g2, g3, hg3, hl3⟩ := split_at_len_back r2 k.length (by omega)
+  have hg2 : g2.length = gap.length - 16 - v.length - k.length := by
+    have : r2.length = g2.length + g3.length := by rw [hg3]; simp
+    omega
+  subst hg3; subst hg4; subst hg1
+  let E := encodeBounds bounds
+  let back := backBytes items
+  have hE : E.length = 16 * b.boundsCount := by simp [E, h.cnt]
+  have hback : back.length = b.entriesLen := by simp [back, h.elen]
+  have hb0 : b.buf = (E ++ (g1 ++ g2)) ++ (g3 ++ (g4 ++ back)) := by
+    rw [h.buf]; simp [E, back]
+  have hsub : Entries.sub b.buf.length (b.entriesLen + k.length + v.length)
+      = .ok ((E ++ (g1 ++ g2)).length) := by
+    rw [sub_ok (by omega)]; congr 1; simp [hE, hl1, hg2]; omega
+  have w1 : writeAt b.buf (E ++ (g1 ++ g2)).length k
+      = .ok ((E ++ (g1 ++ g2)) ++ (k ++ (g4 ++ back))) := by
+    rw [hb0]; exact writeAt_mid _ _ _ _ _ rfl hl3.symm
+  have w2 : writeAt ((E ++ (g1 ++ g2)) ++ (k ++ (g4 ++ back)))
+      ((E ++ (g1 ++ g2)).length + k.length) v
+      = .ok (((E ++ (g1 ++ g2)) ++ k) ++ (v ++ back)) := by
+    rw [← List.append_assoc (E ++ (g1 ++ g2)) k]
+    exact writeAt_mid _ _ _ _ _ (by simp) hl4.symm
+  have hb2 : ((E ++ (g1 ++ g2)) ++ k) ++ (v ++ back) = E ++ (g1 ++ (g2 ++ (k ++ (v ++ back)))) := by
+    simp
+  have w3 : writeAt (E ++ (g1 ++ (g2 ++ (k ++ (v ++ back))))) (b.boundsCount * boundSize)
+      (encodeBound (b.entriesLen + k.length + v.length) k.length v.length)
+      = .ok (E ++ (encodeBound (b.entriesLen + k.length + v.length) k.length v.length
+              ++ (g2 ++ (k ++ (v ++ back))))) :=
+    writeAt_mid _ _ _ _ _ (by simp [hE, boundSize]; omega) (by simp [hl1])
+  have hguard : ¬ ((b.boundsCount + 1) * boundSize
+      > (E ++ (g1 ++ (g2 ++ (k ++ (v ++ back))))).length) := by
+    simp [hE, hl1, boundSize]; omega
+  refine ⟨_, g2, ?_, ⟨?_, ?_, ?_, ?_⟩, ?_, rfl, rfl⟩
+  · unfold store
+    simp only [hsub, w1, w2, hb2, w3, hguard, if_false]
+  · show E ++ (encodeBound (b.entriesLen + k.length + v.length) k.length v.length
+        ++ (g2 ++ (k ++ (v ++ back)))) = _
+    rw [encodeBounds_append, encodeBounds_single, backBytes_snoc, h.elen]
+    simp [E, back, newBound, EntryBound.encode]
+  · show b.boundsCount + 1 = _
+    simp [h.cnt]
+  · show b.entriesLen + k.length + v.length = _
+    simp [itemsSize_append, itemsSize, h.elen]; omega
+  · intro bd hbd
+    rw [backBytes_snoc]
+    rcases List.mem_append.1 hbd with hb | hb
+    · exact (h.rng bd hb).prepend _
+    · simp only [List.mem_singleton] at hb
+      subst hb
+      refine ⟨?_, ?_, ?_, hk, hv⟩
+      · simp [newBound]; omega
+      · simp [newBound]; omega
+      · show itemsSize items + k.length + v.length < 2 ^ 64
+        rw [← h.elen]; omega
+  · show (E ++ (encodeBound (b.entriesLen + k.length + v.length) k.length v.length
+        ++ (g2 ++ (k ++ (v ++ back))))).length = _
+    rw [hlen]; simp [hE, hback, hg2]; omega
+
 end EntriesB
 end Grenad
